@@ -77,6 +77,7 @@ Theorem cflist_applied g c : region_wf g ->
           then option_map (fun old => cfl_entry (rg_id g) old (nth (k - j) fs 0%N)) (nth_error (dp_channels p) k)
           else nth_error (dp_channels p) k
   | PFix p, CflFix m => region_join_accept g c = Val {| rg_id := rg_id g; rg_plan := PFix {| fp_mask := m; fp_jc := jc_reset (fp_jc p) |} |}
+  | PFix p, _ => region_join_accept g c = Val {| rg_id := rg_id g; rg_plan := PFix {| fp_mask := mask_default; fp_jc := fp_jc p |} |}
   | _, _ => region_join_accept g c = Val g
   end.
 Proof.
@@ -264,7 +265,7 @@ Proof.
   - rewrite S in H. injection H as <-. rewrite Ep. exact Hwf.
   - destruct (S Hc) as [chs' [S1 [S2 _]]]. rewrite S1 in H. injection H as <-. cbn [rg_plan rg_id]. split; [exact S2|apply Hwf].
   - rewrite S in H. injection H as <-. rewrite Ep. exact Hwf.
-  - rewrite S in H. injection H as <-. rewrite Ep. exact I.
-  - rewrite S in H. injection H as <-. rewrite Ep. exact I.
+  - rewrite S in H. injection H as <-. exact I.
+  - rewrite S in H. injection H as <-. exact I.
   - rewrite S in H. injection H as <-. exact I.
 Qed.
